@@ -76,7 +76,7 @@ func ObserveCLI(a *Acc, m *Materialised) {
 			a.noteDiff(&a.cliDiff, route, "error "+err.Error(), "the documents of the SDK render")
 			return
 		}
-		entries, _, _, _ := m.parseManifest(manifest)
+		entries, _, _, _, _ := m.parseManifest(manifest)
 		ok := len(entries) == len(first.Manifest)
 		for i := 0; ok && i < len(entries); i++ {
 			ok = entries[i].P == first.Manifest[i].P && entries[i].I == first.Manifest[i].I && entries[i].V == first.Manifest[i].V
